@@ -861,6 +861,27 @@ func (s *session) noReply() bool {
 		return false
 	}
 	alive := s.probe()
+	if code == protocol.BlocksMsg {
+		// per momentum: does it hash to the hash it states (height 1: is it the genesis hash)
+		own := Lst()
+		forged := false
+		for _, d := range v.([]*nom.DetailedMomentum) {
+			ok := d.Momentum.ComputeHash() == d.Momentum.Hash
+			if d.Momentum.Height == 1 {
+				ok = d.Momentum.Hash == s.hashAt[1]
+			}
+			own = append(own, ok)
+			forged = forged || !ok
+		}
+		in := Tup(U64(s.H), U64(uint64(len(b))), Con("RBlocks", own))
+		tag := map[bool]string{false: "blocks-delivered", true: "blocks-forged-hash"}[forged]
+		if alive {
+			out.Case("handle", in, Con("ONoReply"), tag)
+		} else if s.ended != nil && s.ended.panicked == nil {
+			out.Case("handle", in, Con("OErr", I64(errClassOf(s.ended.err))), tag)
+		}
+		return alive
+	}
 	if alive {
 		out.Case("handle", Tup(U64(s.H), U64(uint64(len(b))), Con("RNoReply", U64(code))), Con("ONoReply"), "noreply")
 	}
